@@ -249,7 +249,7 @@ def check(ck):
             if ok:
                 creates = [c for c in A.calls_in(el[0]) if A.call_dotted(c) == factory + ".create"]
                 ok = len(creates) == 2 and any(A.norm(c.args[0]).startswith("_DEFAULT") for c in creates) and \
-                    any([A.norm(a) for a in c.args] == ["%s_type" % what, "%s_config" % what] for c in creates)
+                    any([fc.xnorm(a, fc.nodes(c)[0]) for a in c.args] == ["self.config['%s']['type']" % what, "self.config['%s']" % what] for c in creates)
         ck.ob(R2, fc.key(None, what + "-precedence"), ok, "%s: argument, else configured type+config, else default" % what if ok else
               "the cluster's %s is not chosen as argument > configuration > default" % what, fc.where())
     # file loaders: sibling agreement — both split the path into (directory, file name) so that a
@@ -270,7 +270,9 @@ def check(ck):
     ok = len(loops) == 1 and A.norm(loops[0].iter) == "self.repos"
     if ok:
         rets = [s for s in A.walk_local(loops[0]) if isinstance(s, ast.Return)]
-        ok = len(rets) == 1 and A.norm(rets[0].value) == "repo.clusters[cluster_name]" and "cluster_name in repo.clusters" in A.norm(gc.enclosing(rets[0], ast.If).test)
+        lv = A.norm(loops[0].target)
+        ok = len(rets) == 1 and A.norm(rets[0].value) == "%s.clusters[cluster_name]" % lv and gc.enclosing(rets[0], ast.If) is not None \
+            and ("cluster_name in %s.clusters" % lv) in A.norm(gc.enclosing(rets[0], ast.If).test)
         tail = [r for r in gc.returns() if not gc.inside(r, loops[0]) and A.is_none(r.value)]
         ok = ok and len(tail) == 1
     ck.ob(R4, gc.key(None, "first-match"), ok, "repositories are searched in order; the first that defines the cluster wins; None otherwise" if ok else
